@@ -10,6 +10,22 @@
  *   r drop <k|ctx>             handle k ->reply(NULL)  |  metatype unref (owner releases the context)
  *   r send <ok|fail> ...       schedule of the transport's answers (exhausted: ok)
  *
+ * stream-input variant (mptio/stream/stream_input.c, stream_reply.c) over a socketpair; the driver is the peer:
+ *   s open <idlen>             mpt_stream_input(socket, RdWr|Buffer, EncodingCobs, idlen)
+ *   s req <hex> <act>[,<act>]  peer sends one COBS frame with this content (id header + payload), the driver polls and
+ *                              dispatches with a handler that performs the acts on ev->reply:
+ *                                reply:<hex> | replynull | defer | ret:<int>  (return value of the handler, default 0)
+ *                              then flushes and decodes what the peer received
+ *   s close                    unref the input, decode what the peer received
+ *   R = handler called?, reply context offered?, ev->id, result of every act; C = frames the peer received
+ *
+ * stream-backed connection (mptio/connection/connection_dispatch.c: streamWrapper/replyConnection on top of the
+ * deferrable reply context) over a socketpair:
+ *   c open <idlen>             connection whose output is a COBS stream on the socket, message ids of idlen bytes
+ *   c req <hex> <acts>         as `s req`, through mpt_connection_dispatch; `defer` keeps the handle as h<k>
+ *   c dreply <k> <hex|none>    deferred handle k ->reply(msg)
+ *   c close                    mpt_connection_fini
+ *
  * R = verdict (+ token / id), C = the transport calls made during this op, I = exact return code.
  * The driver refuses (bad-op) what the API forbids: use of a released handle, use of the context after
  * the owner released it.
@@ -22,6 +38,14 @@
 #include "types.h"
 #include "message.h"
 #include "event.h"
+#include <poll.h>
+#include <fcntl.h>
+#include <sys/socket.h>
+#include <sys/ioctl.h>
+#include "convert.h"
+#include "connection.h"
+#include "notify.h"
+#include "stream.h"
 
 #define MAXH 32
 static MPT_INTERFACE(metatype) *ctx;             /* owner's reference, 0 after `drop ctx` */
@@ -92,6 +116,233 @@ static void release_all(void)
 	loglen = 0;
 }
 
+/* ---------------------------------------------------------------- stream input over a socketpair */
+static MPT_INTERFACE(input) *sin_in;
+static int sin_peer = -1, sin_fd0 = -1;
+static uint8_t sin_rx[1 << 16];
+static size_t sin_rxlen;
+static char *sin_acts;
+static char sin_res[4096];
+static int sin_called, sin_ctx;
+static unsigned long long sin_id;
+static MPT_INTERFACE(reply_context_detached) *chnd[MAXH];
+static int cnh;
+static int sin_defer_keep;     /* handler keeps deferred handles (connection variant) */
+
+static void sin_close(void)
+{
+	if (sin_in) { sin_in->_vptr->meta.unref((void *) sin_in); sin_in = 0; }
+}
+static void sin_drop_peer(void)
+{
+	if (sin_peer >= 0) { close(sin_peer); sin_peer = -1; }
+	sin_rxlen = 0;
+}
+/* standard COBS, frame terminated by a zero byte */
+static size_t cobs_encode(const uint8_t *in, size_t n, uint8_t *out)
+{
+	size_t o = 1, code_at = 0; uint8_t code = 1;
+	for (size_t i = 0; i < n; i++) {
+		if (in[i]) { out[o++] = in[i]; if (++code == 0xff) { out[code_at] = code; code_at = o++; code = 1; } }
+		else { out[code_at] = code; code_at = o++; code = 1; }
+	}
+	out[code_at] = code;
+	out[o++] = 0;
+	return o;
+}
+/* print and remove the complete frames in sin_rx; anything that is not a COBS frame is shown raw */
+static void sin_frames(void)
+{
+	ssize_t n;
+	if (sin_peer >= 0) while (sin_rxlen < sizeof(sin_rx) && (n = recv(sin_peer, sin_rx + sin_rxlen, sizeof(sin_rx) - sin_rxlen, MSG_DONTWAIT)) > 0) sin_rxlen += n;
+	size_t start = 0; int any = 0;
+	for (size_t i = 0; i < sin_rxlen; i++) {
+		if (sin_rx[i]) continue;
+		/* frame sin_rx[start..i) */
+		uint8_t dec[1 << 12]; size_t d = 0, p = start; int bad = (i == start);
+		while (p < i && !bad) {
+			uint8_t code = sin_rx[p++];
+			if (p + code - 1 > i) { bad = 1; break; }
+			for (uint8_t k = 1; k < code; k++) dec[d++] = sin_rx[p++];
+			if (code != 0xff && p < i) dec[d++] = 0;
+		}
+		if (any++) fputc(',', stdout);
+		if (bad) { printf("badframe["); drv_puthex(stdout, sin_rx + start, i - start + 1); printf("]"); }
+		else { printf("frame["); drv_puthex(stdout, dec, d); printf("]"); }
+		start = i + 1;
+	}
+	if (start < sin_rxlen) { if (any++) fputc(',', stdout); printf("partial["); drv_puthex(stdout, sin_rx + start, sin_rxlen - start); printf("]"); }
+	if (!any) fputc('-', stdout);
+	sin_rxlen = 0;
+}
+static int sin_handler(void *arg, MPT_STRUCT(event) *ev)
+{
+	int ret = 0; size_t p = 0;
+	char *save = 0, *a;
+	(void) arg;
+	sin_called = 1;
+	sin_ctx = ev->reply ? 1 : 0;
+	sin_id = ev->id;
+	sin_res[0] = 0;
+	for (a = strtok_r(sin_acts, ",", &save); a; a = strtok_r(0, ",", &save)) {
+		if (p) sin_res[p++] = ',';
+		if (!strncmp(a, "ret:", 4)) { ret = atoi(a + 4); p += snprintf(sin_res + p, sizeof(sin_res) - p, "ret"); continue; }
+		if (!ev->reply) { p += snprintf(sin_res + p, sizeof(sin_res) - p, "noctx"); continue; }
+		if (!strcmp(a, "defer")) {
+			MPT_INTERFACE(reply_context_detached) *h = (sin_defer_keep && cnh >= MAXH) ? 0 : ev->reply->_vptr->defer(ev->reply);
+			if (h && sin_defer_keep) { p += snprintf(sin_res + p, sizeof(sin_res) - p, "deferred:h%d", cnh); chnd[cnh++] = h; }
+			else p += snprintf(sin_res + p, sizeof(sin_res) - p, h ? "deferred" : "nodefer");
+			continue;
+		}
+		MPT_STRUCT(message) msg; uint8_t *dat = 0; int none = 0, r;
+		if (!strcmp(a, "replynull")) none = 1;
+		else if (strncmp(a, "reply:", 6) || parse_msg(a + 6, &msg, &dat, &none) || none) { p += snprintf(sin_res + p, sizeof(sin_res) - p, "badact"); continue; }
+		r = ev->reply->_vptr->reply(ev->reply, none ? 0 : &msg);
+		free(dat);
+		p += snprintf(sin_res + p, sizeof(sin_res) - p, r < 0 ? "refused" : "ok");
+	}
+	return ret;
+}
+static int sin_act_ok(const char *acts)
+{
+	/* acts: comma separated, each reply:<hex> | replynull | defer | ret:<int> */
+	char *copy = strdup(acts), *save = 0, *a; int ok = 1, n = 0;
+	if (!*acts || acts[0] == ',' || acts[strlen(acts) - 1] == ',' || strstr(acts, ",,")) ok = 0;
+	for (a = strtok_r(copy, ",", &save); a && ok; a = strtok_r(0, ",", &save), ++n) {
+		if (!strcmp(a, "replynull") || !strcmp(a, "defer")) continue;
+		if (!strncmp(a, "ret:", 4)) { char *e; long v = strtol(a + 4, &e, 10); if (*e || e == a + 4 || a[4] == '+' || v < -128 || v > 127) ok = 0; continue; }
+		if (!strncmp(a, "reply:", 6)) { uint8_t *d = 0; size_t l; int isn; if (drv_parse_data(a + 6, &d, &l, &isn) || isn) ok = 0; free(d); continue; }
+		ok = 0;
+	}
+	free(copy);
+	return ok && n <= 16;
+}
+/* ---------------------------------------------------------------- stream-backed connection */
+static MPT_STRUCT(connection) ccon = MPT_CONNECTION_INIT;
+static int ccon_open;
+
+static void ccon_close(void)
+{
+	if (ccon_open) { mpt_connection_fini(&ccon); ccon_open = 0; }
+}
+static void ccon_release(void)
+{
+	for (int i = 0; i < cnh; i++) if (chnd[i]) { chnd[i]->_vptr->reply(chnd[i], 0); chnd[i] = 0; }
+	cnh = 0;
+}
+static void con_op(void)
+{
+	const char *op = drv_w[1];
+	size_t a;
+	if (!strcmp(op, "open") && drv_nw == 3) {
+		if (drv_parse_nat(drv_w[2], &a) || a > 255) { puts("bad-op"); return; }
+		sin_close(); ccon_release(); ccon_close(); sin_drop_peer();
+		int sv[2];
+		if (socketpair(AF_UNIX, SOCK_STREAM, 0, sv) < 0) { puts("R nosocket | C - | I ret=0"); return; }
+		MPT_STRUCT(socket) sock; sock._id = sv[0];
+		MPT_STRUCT(stream) st = MPT_STREAM_INIT, *srm;
+		MPT_STRUCT(connection) init = MPT_CONNECTION_INIT;
+		if (mpt_stream_dopen(&st, &sock, MPT_STREAMFLAG(RdWr) | MPT_STREAMFLAG(Buffer)) < 0) { close(sv[0]); close(sv[1]); puts("R refused | C - | I ret=0"); return; }
+		st._wd._enc = mpt_message_encoder(MPT_ENUM(EncodingCobs));
+		st._rd._dec = mpt_message_decoder(MPT_ENUM(EncodingCobs));
+		srm = malloc(sizeof(*srm));
+		*srm = st;
+		ccon = init;
+		ccon.out.buf._buf = (void *) srm;
+		ccon.out._idlen = a;
+		ccon_open = 1;
+		sin_peer = sv[1]; sin_fd0 = sv[0];
+		puts("R ok | C - | I ret=0");
+	}
+	else if (!strcmp(op, "req") && drv_nw == 4) {
+		uint8_t *dat = 0; size_t dlen = 0; int isnull = 0;
+		if (!ccon_open || drv_parse_data(drv_w[2], &dat, &dlen, &isnull) || isnull || dlen > 1000 || !sin_act_ok(drv_w[3])) { puts("bad-op"); free(dat); return; }
+		uint8_t wire[2100]; size_t wl = cobs_encode(dat, dlen, wire);
+		free(dat);
+		if (write(sin_peer, wire, wl) != (ssize_t) wl) { puts("R nowrite | C - | I ret=0"); return; }
+		MPT_STRUCT(stream) *srm = (void *) ccon.out.buf._buf;
+		sin_called = sin_ctx = 0; sin_id = 0; sin_res[0] = 0;
+		sin_acts = drv_w[3];
+		sin_defer_keep = 1;
+		int nx = mpt_stream_poll(srm, POLLIN, -1);
+		int dr = mpt_connection_dispatch(&ccon, sin_handler, 0);
+		for (int round = 0, left = 0; !sin_called && !dr && round < 64 && !ioctl(sin_fd0, FIONREAD, &left) && left > 0; round++) {
+			nx = mpt_stream_poll(srm, POLLIN, -1);
+			dr = mpt_connection_dispatch(&ccon, sin_handler, 0);
+		}
+		sin_defer_keep = 0;
+		mpt_stream_flush(srm);
+		printf("R called=%d ctx=%d id=%llu acts=%s | C ", sin_called, sin_ctx, sin_id, sin_called ? sin_res : "-");
+		sin_frames();
+		printf(" | I next=%d disp=%d\n", nx, dr);
+	}
+	else if (!strcmp(op, "dreply") && drv_nw == 4) {
+		MPT_STRUCT(message) msg; uint8_t *dat = 0; int none = 0;
+		if (drv_parse_nat(drv_w[2], &a) || a >= (size_t) cnh || !chnd[a] || parse_msg(drv_w[3], &msg, &dat, &none)) { puts("bad-op"); return; }
+		int r = chnd[a]->_vptr->reply(chnd[a], none ? 0 : &msg);
+		if (!(r < 0 && !none)) chnd[a] = 0;
+		free(dat);
+		if (ccon_open) mpt_stream_flush((void *) ccon.out.buf._buf);
+		printf("R %s | C ", r < 0 ? "refused" : "ok");
+		sin_frames();
+		if (r < 0) printf(" | I ret=%s\n", drv_errname(r)); else printf(" | I ret=%d\n", r);
+	}
+	else if (!strcmp(op, "close") && drv_nw == 2) {
+		if (!ccon_open) { puts("bad-op"); return; }
+		ccon_close();
+		printf("R ok | C ");
+		sin_frames();
+		printf(" | I ret=0\n");
+	}
+	else puts("bad-op");
+}
+
+static void sin_op(void)
+{
+	const char *op = drv_w[1];
+	size_t a;
+	if (!strcmp(op, "open") && drv_nw == 3) {
+		if (drv_parse_nat(drv_w[2], &a) || a > 1000) { puts("bad-op"); return; }
+		sin_close(); ccon_release(); ccon_close(); sin_drop_peer();
+		int sv[2];
+		if (socketpair(AF_UNIX, SOCK_STREAM, 0, sv) < 0) { puts("R nosocket | C - | I ret=0"); return; }
+		MPT_STRUCT(socket) sock; sock._id = sv[0];
+		sin_in = mpt_stream_input(&sock, MPT_STREAMFLAG(RdWr) | MPT_STREAMFLAG(Buffer), MPT_ENUM(EncodingCobs), a);
+		if (!sin_in) { close(sv[0]); close(sv[1]); puts("R refused | C - | I ret=0"); return; }
+		sin_peer = sv[1]; sin_fd0 = sv[0];
+		puts("R ok | C - | I ret=0");
+	}
+	else if (!strcmp(op, "req") && drv_nw == 4) {
+		uint8_t *dat = 0; size_t dlen = 0; int isnull = 0;
+		if (!sin_in || drv_parse_data(drv_w[2], &dat, &dlen, &isnull) || isnull || dlen > 1000 || !sin_act_ok(drv_w[3])) { puts("bad-op"); free(dat); return; }
+		uint8_t wire[2100]; size_t wl = cobs_encode(dat, dlen, wire);
+		free(dat);
+		if (write(sin_peer, wire, wl) != (ssize_t) wl) { puts("R nowrite | C - | I ret=0"); return; }
+		sin_called = sin_ctx = 0; sin_id = 0; sin_res[0] = 0;
+		sin_acts = drv_w[3];
+		int nx = sin_in->_vptr->next(sin_in, POLLIN);
+		int dr = sin_in->_vptr->dispatch(sin_in, sin_handler, 0);
+		/* a frame larger than the read buffer arrives in several reads */
+		for (int round = 0, left = 0; !sin_called && !dr && round < 64 && !ioctl(sin_fd0, FIONREAD, &left) && left > 0; round++) {
+			nx = sin_in->_vptr->next(sin_in, POLLIN);
+			dr = sin_in->_vptr->dispatch(sin_in, sin_handler, 0);
+		}
+		sin_in->_vptr->next(sin_in, POLLIN | POLLOUT);
+		printf("R called=%d ctx=%d id=%llu acts=%s | C ", sin_called, sin_ctx, sin_id, sin_called ? sin_res : "-");
+		sin_frames();
+		printf(" | I next=%d disp=%d\n", nx, dr);
+	}
+	else if (!strcmp(op, "close") && drv_nw == 2) {
+		if (!sin_in) { puts("bad-op"); return; }
+		sin_close();
+		printf("R ok | C ");
+		sin_frames();
+		printf(" | I ret=0\n");
+		sin_drop_peer();
+	}
+	else puts("bad-op");
+}
+
 int main(void)
 {
 	static char line[1 << 16];
@@ -99,6 +350,8 @@ int main(void)
 	while (fgets(line, sizeof(line), stdin)) {
 		if (line[0] == '#' || line[0] == '\n') { fputs(line, stdout); continue; }
 		drv_split(line);
+		if (drv_nw >= 2 && !strcmp(drv_w[0], "s")) { sin_op(); continue; }
+		if (drv_nw >= 2 && !strcmp(drv_w[0], "c")) { con_op(); continue; }
 		if (drv_nw < 2 || strcmp(drv_w[0], "r")) { puts("bad-op"); continue; }
 		const char *op = drv_w[1];
 		size_t a;
@@ -198,5 +451,7 @@ int main(void)
 		else puts("bad-op");
 	}
 	release_all();
+	ccon_release(); ccon_close();
+	sin_close(); sin_drop_peer();
 	return 0;
 }
